@@ -100,6 +100,14 @@ def generate(rng, tier, index):
                 if (im0["lines"], im0["pixels"]) == (im["lines"], im["pixels"]):
                     sels = actors[0]["selections"]
             actors.append({"image": img, "copy": copy, "selections": sels})
+        if rng.random() < 0.15 and wp["backend"] != "memory":
+            # one more actor opens the same product again (other request size) while the others
+            # load from the tree that is already open (not on memory://: fsspec hands out ONE file
+            # object per path there, so any second open of a file - by whomever - rewinds the
+            # object a load is reading from; that is the store's limitation and an open is not one
+            # of the loads the property speaks about)
+            actors.append({"image": img0, "copy": 0, "opener": common.pick_rpc(rng, wp["images"][img0]["lines"]),
+                           "selections": []})
         if rng.random() < 0.25:
             # one more actor makes a pickled copy of the tree WHILE the others load, then loads
             # from its new copy
@@ -120,7 +128,9 @@ def generate(rng, tier, index):
             # cold starts: a restarted library, a freshly opened tree and the concurrent loads
             # as the very first loads of the process, pre-empted at line level; judged against
             # the truth model (nothing sequential has run that could serve as a reference)
-            "cold": rng.randrange(2**31) if rng.random() < 0.3 else None}
+            "cold": rng.randrange(2**31) if rng.random() < 0.3 else None,
+            # the tree comes from an index cache (created first) in a third of the runs
+            "with_cache": rng.random() < 0.4}
 
 
 def _generate_systematic(rng, tier):
@@ -206,7 +216,11 @@ def execute(plan):
     schedule_out = None
     try:
         try:
-            tree = w.open(use_cache=False, records_per_chunk=plan["rpc"])
+            if plan.get("with_cache"):
+                w.open(create_cache=True, use_cache=False, records_per_chunk=plan["rpc"])
+                tree = w.open(records_per_chunk=plan["rpc"])
+            else:
+                tree = w.open(use_cache=False, records_per_chunk=plan["rpc"])
             copies = {0: tree, 1: pickle.loads(pickle.dumps(tree))}
         except Exception as e:  # noqa: BLE001
             bump("setup-raised:" + type(e).__name__)
@@ -233,7 +247,10 @@ def execute(plan):
             # sequential reference, selection by selection
             jobs = []
             solo_events = 0
+            openers = [a["opener"] for a in aset["actors"] if a.get("opener") is not None]
             for a in aset["actors"]:
+                if a.get("opener") is not None:
+                    continue
                 items = a.get("items") or [[a["image"], a["copy"], sel] for sel in a["selections"]]
                 if a.get("pickler"):
                     items = [[i, "pickle-now", sel] for i, _, sel in items]
@@ -308,6 +325,12 @@ def execute(plan):
                             out.append(select.apply(da, sel).load().values)
                         return out
                     sched.spawn("L%d" % ai, work)
+                for oi, o_rpc in enumerate(openers):
+                    def reopen(o_rpc=o_rpc):
+                        t_new = w.open(records_per_chunk=o_rpc) if plan.get("with_cache") \
+                            else w.open(use_cache=False, records_per_chunk=o_rpc)
+                        return [image_count(t_new)]
+                    sched.spawn("O%d" % oi, reopen)
                 mark = SIM.mark()
                 try:
                     sched.run(wall_timeout=800)
@@ -353,6 +376,9 @@ def execute(plan):
                     violations.append(bad)
                     if schedule_out is None:
                         schedule_out = {"only": [si, j], "schedule": list(sched.trace)}
+        if plan.get("with_cache") and plan.get("schedule") is None and not violations \
+                and w.backend != "memory":
+            evaluations += _directed_reopen(plan, w, prod, tree, violations, keys, bump)
         if plan.get("cold") is not None and plan.get("schedule") is None and not violations:
             n_cold = _cold_starts(plan, w, prod, violations, keys, bump)
             evaluations += n_cold
@@ -364,6 +390,10 @@ def execute(plan):
         w.destroy()
 
 
+def image_count(tree):
+    return len(tree["imagery"].children)
+
+
 def _expected(prod, name, sel):
     """flat indices (into the image) of the samples the selection picks, in result order"""
     import xarray as xr
@@ -371,6 +401,69 @@ def _expected(prod, name, sel):
     twin = xr.DataArray(np.arange(prod.truth[name].shape[0] * prod.truth[name].shape[1]).reshape(
         prod.truth[name].shape[:2]), dims=("rows", "columns"))
     return select.apply(twin, sel).values      # flat indices of the selected samples
+
+
+def _directed_reopen(plan, w, prod, tree, violations, keys, bump):
+    """a load is parked after its k-th file operation, the product is opened again (index cache,
+    another request size) by another actor, then the load goes on: for k = 2..6"""
+    name = prod.images[0]
+    n = prod.truth[name].shape[0]
+    da = tree["imagery"][prod.groups[name]]["data"]
+    sel = {"kind": "isel", "rows": {"slice": [None, None, None]}}
+    try:
+        ref = np.array(select.apply(da, sel).load().values, copy=True)
+    except Exception:  # noqa: BLE001
+        return 0
+    other = [r for r in (1, 2, 3, max(n // 2, 1), n, 1024) if r != plan["rpc"]]
+    done = 0
+    for k in (2, 3, 4, 5, 6):
+        o_rpc = other[k % len(other)]
+        # the opening thread "O" opens the product (through the cache), the loader "L" loads from
+        # that tree in its own thread; as soon as L has done k file operations, O opens the
+        # product again with another request size (fsspec caches filesystem instances per thread:
+        # only a re-open by the thread that opened the first tree meets the same objects)
+        sched = Sched(script=["O"] * 4000, max_steps=200000)
+        box = {}
+        mark = SIM.mark()
+
+        def l_ops():
+            return sum(1 for e in SIM.since(mark) if e[1] == "L" and e[2] in ("open", "seek", "read"))
+
+        def opener(o_rpc=o_rpc, k=k):
+            box["tree"] = w.open(records_per_chunk=plan["rpc"])
+            sched.wait_until(lambda: l_ops() >= k or "L" in sched.done)
+            return image_count(w.open(records_per_chunk=o_rpc))
+
+        def loader():
+            sched.wait_until(lambda: "tree" in box)
+            da_l = box["tree"]["imagery"][prod.groups[name]]["data"]
+            return select.apply(da_l, sel).load().values
+
+        sched.spawn("O", opener)
+        sched.spawn("L", loader)
+        sched.run(wall_timeout=800)
+        done += 1
+        bump("directed-reopens")
+        keys.append(f"directed-reopen|{k}")
+        where = {"parked_after": k, "reopen_rpc": o_rpc, "rpc": plan["rpc"]}
+        bad = None
+        if sched.deadlock:
+            bad = Violation(ID, "deadlock", "load-vs-reopen", dict(where, blocked=sorted(sched.blocked)))
+        elif sched.budget:
+            bad = Violation(ID, "no-progress", "load-vs-reopen", where)
+        elif "L" in sched.err:
+            bad = Violation(ID, "load-raised", "load-vs-reopen", dict(where, error=exc_text(sched.err["L"])))
+        elif "O" in sched.err:
+            bump("reopen-raised:" + type(sched.err["O"]).__name__)
+        else:
+            got = sched.res["L"]
+            if got.shape != ref.shape or not np.array_equal(bits_of(got, prod.level),
+                                                            bits_of(ref, prod.level)):
+                bad = Violation(ID, "result-differs-from-sequential", "load-vs-reopen", where)
+        if bad is not None:
+            violations.append(bad)
+            break
+    return done
 
 
 def _cold_starts(plan, w, prod, violations, keys, bump):
